@@ -368,7 +368,7 @@ func Concretise(env Env, rng *rand.Rand, originAddr string, thorough bool) *Scen
 				res.CutAt = rng.Intn(head) // 0 .. head-1: before the head is complete
 			}
 		case "trunc":
-			if res.Framing == "none" || len(res.Body) == 0 {
+			if res.Framing == "none" || len(res.Body) < 4 {
 				res.Framing = "cl"
 				res.Status = 200
 				res.Body = randBody(rng, 10+rng.Intn(5000))
